@@ -220,6 +220,17 @@ func (c *fctx) expr() *X {
 		}
 		return &X{K: XCall, Name: "tick", Args: []*X{a}}
 	}
+	if c.g.cfg.Closures && r.Chance(1, 10) {
+		// a function literal called on the spot, reading (or updating) variables in scope:
+		// their references must keep denoting the same variables wherever the expression
+		// ends up (a continuation thunk, a loop's post function, a Delay)
+		c.g.mark("immediately_invoked_literal_in_expression")
+		if ws := c.sc.visible(vInt); len(ws) > 0 && r.Bool() {
+			w := ws[r.Intn(len(ws))]
+			return &X{K: XRaw, S: fmt.Sprintf("func() int { %s += %d; return %s }()", w, r.Range(1, 3), w)}
+		}
+		return &X{K: XRaw, S: "func() int { return " + c.pure(1).str(Mode{}) + " }()"}
+	}
 	e := c.pure(2)
 	if r.Intn(100) < c.g.cfg.EffPct {
 		return &X{K: XV, Tag: c.g.nextTag(), A: e}
